@@ -503,6 +503,10 @@ func findEnd(r []rune, i, end int) int {
 
 // findStringEnd finds end of the string, returning end if not found.
 func findStringEnd(seq []rune, pos, end int) (int, bool) {
+	if pos >= end {
+		return pos, false
+	}
+
 	var char rune
 	quote := seq[pos]
 
